@@ -7,7 +7,10 @@
    whose byte-wise order is the numeric order (premise); the type is Full iff data.db is present;
    term and index are the raft meta; paths and file lists play no role in these functions. *)
 From Coq Require Import List String Bool NArith ZArith Lia ZifyBool ZifyN ZifyNat.
-From RQ Require Import Lib.GoLib Lib.GenTac Model.C09 Gen.SnapshotSet.
+From RQ Require Import Lib.GoLib.
+From RQ Require Import Lib.GenTac.
+From RQ Require Import Model.C09.
+From RQ Require Import Gen.SnapshotSet.
 Import ListNotations.
 Local Open Scope N_scope.
 
@@ -50,7 +53,7 @@ Section Catalog.
 
   Lemma gen_Less_eq : forall a b, Snapshot_Less unit (gsnap a) (gsnap b) = dlt a b.
   Proof.
-    intros a b. unfold Snapshot_Less, dlt, gsnap.
+    intros a b. unfold Snapshot_Less, dlt, gsnap. aux.
     cbn [Snapshot_raftMeta Snapshot_id raft_SnapshotMeta_Term raft_SnapshotMeta_Index]. rewrite enc_lt.
     destruct (N.eqb_spec (d_term a) (d_term b)), (Z.eqb_spec (Z.of_N (d_term a)) (Z.of_N (d_term b))); try lia; cbn [negb];
     [destruct (N.eqb_spec (d_index a) (d_index b)), (Z.eqb_spec (Z.of_N (d_index a)) (Z.of_N (d_index b))); try lia; cbn [negb]|];
